@@ -497,6 +497,11 @@ class _IncomingPacketHandler(Thread):
             if pk is None:
                 continue
 
+            if self.cf.link is not link:
+                # The link was closed (or replaced) while we were waiting: the packet belongs
+                # to a connection that has already been reported as disconnected
+                continue
+
             # All-packet callbacks
             self.cf.packet_received.call(pk)
 
